@@ -34,12 +34,11 @@ def classify_exception(exc):
                 last = ("repo", fr)
             elif fr.filename.startswith(env.VERIF):
                 last = ("harness", fr)
-        # OpenMDAO refusing (set-up) or failing (run) a model that the zoo assembled from the repository's groups: the zoo's own
-        # wiring is exercised on every case of the unchanged tree, so on an admissible generated configuration this is the
-        # repository's model failing, not the harness
-        if (last is not None and last[0] == "harness" and os.path.basename(last[1].filename) == "zoo.py"
-                and last[1].name in ("build_aero", "build_as", "build_struct", "build_geom", "run") and frames
-                and (os.sep + "openmdao" + os.sep) in frames[-1].filename):
+        # OpenMDAO refusing (set-up) or failing (run) a model that the harness assembled from the repository's groups (the innermost
+        # harness frame is the call of Problem.setup / final_setup / run_model): the harness wiring is exercised on every case of the
+        # unchanged tree, so on an admissible generated configuration this is the repository's model failing, not the harness
+        if (last is not None and last[0] == "harness" and frames and (os.sep + "openmdao" + os.sep) in frames[-1].filename
+                and any(k in (last[1].line or "") for k in (".setup(", ".final_setup(", ".run_model("))):
             last = ("repo", last[1])
         if last is not None and (best is None or last[0] == "repo"):
             best = last
